@@ -3,8 +3,8 @@
 # prints: SUITE_WITH_CHANGE=<pass|fail> DEMO_WITH_CHANGE=<pass|fail> DEMO_WITHOUT=<pass|fail>
 set -u
 D="$1"
-WT=/tmp/wt/verify
-export CARGO_NET_OFFLINE=true CARGO_TARGET_DIR=/tmp/wt/verify-target
+WT=${VERIFY_WT:-/tmp/wt/verify}
+export CARGO_NET_OFFLINE=true CARGO_TARGET_DIR=${VERIFY_WT:-/tmp/wt/verify}-target
 if [ ! -d "$WT" ]; then git -C /repo worktree add -q --detach "$WT" HEAD || exit 2; cp /repo/Cargo.lock "$WT/"; fi
 cd "$WT" && git checkout -q --detach "$(git -C /repo rev-parse HEAD)" && git checkout -q -- . && git clean -qfd rscel/tests extensions 2>/dev/null
 cp /repo/Cargo.lock "$WT/" 2>/dev/null
